@@ -14,7 +14,7 @@ import types
 import z3
 
 from . import sym as S
-from .sym import (ExcVal, SBool, SBytes, SInt, SMap, SObj, SRange, SReal, SSeq, Sym, T, Ty, Unsupported, concrete_of,
+from .sym import (ExcVal, SBool, SBytes, SBytesIO, SInt, SItems, SMap, SObj, SRange, SReal, SSeq, Sym, T, Ty, Unsupported, concrete_of,
                   seq_lit, simp, to_z3, wrap)
 
 
@@ -56,6 +56,48 @@ def blt_facts(I, a, b):
     # empty string is least
     p.assume(z3.Implies(z3.Length(a) == 0, z3.Or(z3.Length(b) == 0, BLT(a, b))))
     p.assume(z3.Implies(z3.Length(b) == 0, z3.Not(BLT(a, b))))
+
+
+# ----------------------------------------------------------------------------- dict ghosts
+
+
+def attach_key_order(I, m, hint="d"):
+    """Give a symbolic dict its ghost iteration order: keys (distinct, exactly the present keys)
+    and kpos (the position of each present key).  A1: for j < n, keys[j] is present and
+    kpos[keys[j]] == j.  A2: a present key x sits at keys[kpos[x]]."""
+    p = I.path
+    karr = z3.Const(p.fresh_name(hint + "_keys"), z3.ArraySort(S.IntS, S.sort_of(m.kty)))
+    n = p.fresh_int(hint + "_nkeys")
+    p.add_pool(n)
+    p.assume(n >= 0)
+    kpos = z3.Const(p.fresh_name(hint + "_kpos"), z3.ArraySort(S.sort_of(m.kty), S.IntS))
+    m.keys = SSeq(karr, n, m.kty, "list")
+    m.kpos = kpos
+    m.size = n
+    has = m.has
+    p.qhyps.append(lambda t: z3.And(
+        z3.Implies(z3.And(t >= 0, t < n), z3.And(z3.Select(has, z3.Select(karr, t)), z3.Select(kpos, z3.Select(karr, t)) == t)),
+        z3.Implies(z3.Select(has, t), z3.And(z3.Select(kpos, t) >= 0, z3.Select(kpos, t) < n, z3.Select(karr, z3.Select(kpos, t)) == t))))
+    # the positions of present keys are instantiation terms too
+    p.term_maps.append(lambda t, kpos=kpos: z3.Select(kpos, t))
+    p.term_maps.append(lambda t, karr=karr: z3.Select(karr, t))
+
+
+def drop_key_order(m):
+    m.keys = None
+    m.kpos = None
+
+
+def key_of(I, k):
+    """SMT key of a dict key value: ints are themselves; an object gets one abstract integer
+    identity per allocation (equality between keys of different objects is left open)."""
+    if isinstance(k, SObj):
+        kid = getattr(k, "_keyid", None)
+        if kid is None:
+            kid = I.path.fresh_int("key")
+            k._keyid = kid
+        return kid
+    return to_z3(k)
 
 
 # ----------------------------------------------------------------------------- sequences
@@ -144,10 +186,14 @@ def seq_len(I, v):
         else:
             raise Unsupported("range with |step| != 1 and symbolic bounds")
         return SInt(simp(z3.If(d > 0, d, 0)))
+    if isinstance(v, SItems):
+        return SInt(v.keys.n) if not isinstance(v.keys.n, int) else v.keys.n
     if isinstance(v, SMap):
         if v.size is None:
             raise Unsupported("len() of a dict without a size model")
         return SInt(v.size)
+    if isinstance(v, SBytesIO):
+        raise Unsupported("len() of a BytesIO")
     if isinstance(v, SObj):
         f = I.class_lookup(v.cls, "__len__")
         if f is not None:
@@ -167,6 +213,13 @@ def seq_at(I, v, i):
         return wrap(v.ety, v.at(iz))
     if isinstance(v, SRange):
         return SInt(simp(to_z3(v.start) + iz * v.step))
+    if isinstance(v, SItems):
+        k = v.keys.at(iz)
+        return (wrap(v.kty, k), wrap(v.vty, z3.Select(v.val, k)))
+    if isinstance(v, SMap):
+        if v.keys is None:
+            raise Unsupported("iteration over a dict whose key order is not tracked")
+        return wrap(v.kty, v.keys.at(iz))
     if isinstance(v, (bytes, bytearray, str, tuple, list)):
         c = concrete_of(iz)
         if c is not None and not (0 <= c < len(v)):
@@ -253,6 +306,8 @@ def _slice_bounds(I, sl, n):
 
 def get_item(I, v, idx):
     itp = _interp()
+    if type(v).__name__ == "_ArrView":
+        return SInt(z3.Select(v.arr, to_z3(idx)))
     if isinstance(v, SObj):
         f = I.class_lookup(v.cls, "__getitem__")
         if f is None:
@@ -285,7 +340,7 @@ def get_item(I, v, idx):
         except KeyError:
             I.raise_py(KeyError, idx)
     if isinstance(v, SMap):
-        kz = to_z3(idx)
+        kz = key_of(I, idx)
         if not I.spec:
             if not I.path.branch(z3.Select(v.has, kz), note="key-present"):
                 I.raise_py(KeyError, idx)
@@ -329,11 +384,12 @@ def set_item(I, v, idx, x):
         v[idx] = x
         return
     if isinstance(v, SMap):
-        kz = to_z3(idx)
+        kz = key_of(I, idx)
         if v.size is not None:
             v.size = simp(z3.If(z3.Select(v.has, kz), v.size, v.size + 1))
         v.has = z3.Store(v.has, kz, z3.BoolVal(True))
         v.val = z3.Store(v.val, kz, to_z3(x))
+        drop_key_order(v)
         return
     if isinstance(v, SSeq) and v.kind == "list":
         j = _norm_index(I, idx, seq_len(I, v), "list assignment index")
@@ -369,12 +425,13 @@ def del_item(I, v, idx):
             I.raise_py(KeyError, idx)
         return
     if isinstance(v, SMap):
-        kz = to_z3(idx)
+        kz = key_of(I, idx)
         if not I.path.branch(z3.Select(v.has, kz), note="key-present"):
             I.raise_py(KeyError, idx)
         if v.size is not None:
             v.size = simp(v.size - 1)
         v.has = z3.Store(v.has, kz, z3.BoolVal(False))
+        drop_key_order(v)
         return
     if isinstance(v, list) and isinstance(idx, int):
         try:
@@ -405,6 +462,10 @@ def list_extend(I, lst: SSeq, other):
 
 def list_append(I, lst: SSeq, x):
     lst.arr = z3.Store(lst.arr, simp(to_z3(lst.off) + to_z3(lst.n)), to_z3(x))
+    if lst.mem is not None:
+        xz = to_z3(x)
+        lst.lpos = z3.Store(lst.lpos, xz, simp(to_z3(lst.off) + to_z3(lst.n)))
+        lst.mem = z3.Store(lst.mem, xz, z3.BoolVal(True))
     lst.n = simp(to_z3(lst.n) + 1)
 
 
@@ -859,7 +920,9 @@ def contains(I, container, x):
     if isinstance(container, dict):
         return contains(I, list(container.keys()), x)
     if isinstance(container, SMap):
-        return SBool(simp(z3.Select(container.has, to_z3(x))))
+        return SBool(simp(z3.Select(container.has, key_of(I, x))))
+    if isinstance(container, SSeq) and container.mem is not None:
+        return SBool(simp(z3.Select(container.mem, to_z3(x))))
     if isinstance(container, SBytes) and isinstance(x, (int, SInt)):
         return SBool(simp(z3.Contains(container.e, z3.Unit(to_z3(x)))))
     if is_bytes_like(container) and is_bytes_like(x):
